@@ -397,3 +397,10 @@ def next_pow2(n):
     while p < n:
         p *= 2
     return p
+
+
+@native
+def leaves(data):
+    import hashlib
+    data = bytes(data)
+    return [hashlib.sha256(data[i:i + 16384]).digest() for i in range(0, len(data), 16384)]
